@@ -189,6 +189,11 @@ def apply(spec, state, op):
         for k, v in op[1]:
             m.setitem(k, v)
         out = ('ok', None)
+    elif name == 'update_bad':
+        # update() from a sequence whose last element is not a pair: the good pairs are assigned, then it raises
+        for k, v in op[1]:
+            m.setitem(k, v)
+        out = ('exc', 'ValueError')
     elif name == 'in':
         out = ('ok', m.index(op[1]) >= 0)
     elif name == 'len':
@@ -203,6 +208,8 @@ def apply(spec, state, op):
         out = ('ok', dict(m.items) != dict(op[1]))
     elif name == 'eqself':
         out = ('ok', True)
+    elif name == 'noop':            # c.update(c), c |= c: a cache updated from itself does not change
+        out = ('ok', None)
     elif name == 'copy':
         out = ('ok', {'cls': spec.kind, 'max_size': spec.max_size, 'items': dict(m.items),
                       'order': [k for k, _ in m.items]})
@@ -217,5 +224,5 @@ LOCK_FREE_READS = frozenset(['in', 'len', 'dict', 'keys'])
 #: exception types an operation can raise in *some* sequential state
 POSSIBLE_EXC = {
     'get': {'KeyError', 'LookupError'}, 'del': {'KeyError'}, 'pop': {'KeyError'}, 'popitem': {'KeyError'},
-    'getd': {'LookupError'}, 'setdefault': {'LookupError'},
+    'getd': {'LookupError'}, 'setdefault': {'LookupError'}, 'update_bad': {'ValueError'},
 }
